@@ -73,6 +73,13 @@ func c01Typestate(c *Ctx) {
 	tcReq := c.ConstInt("cmd/rdpgw/protocol", "PKT_TYPE_TUNNEL_CREATE")
 	authz := c.ConstInt("cmd/rdpgw/protocol", "SERVER_STATE_TUNNEL_AUTHORIZE")
 
+	// the phase names stand for different phases: two state constants with one value make a guard
+	// written against the one also admit the other (a second channel create while in CHANNEL_CREATE)
+	for _, pfx := range []string{"SERVER_STATE_", "PKT_TYPE_"} {
+		dup := c.duplicateConsts("cmd/rdpgw/protocol", pfx)
+		c.Check(len(dup) == 0, rule, pfx+"* distinct", m.Fn.Pos(), "the constants have pairwise different values", fmt.Sprintf("constants with the same value: %s; a phase guard on one of them also lets the other through", strings.Join(dup, ", ")))
+	}
+
 	// 5. reachable loop-head states: exactly the chain INITIALIZED..OPENED
 	want := map[int64]bool{}
 	for _, r := range rows {
